@@ -1,13 +1,28 @@
 (* C03 - not(G) succeeds once, without bindings, iff G has no answer.
 
-   PROVED for every goal G, substitution and world: the behaviour of the not node in terms
-   of the FIRST request to G's node, and the matching law of the reference search.  That the
-   first request to G's node finds an answer exactly when the reference search of G has one
-   is part of `refines_reference` (Spec/Refine.v; not yet proved, evaluated by the oracle). *)
-From Suiron Require Import Model.Term Model.Subst Model.Rename Model.Solve Spec.SpecSolve Spec.Refine
-  Proofs.SolveDead Proofs.SolveMisc.
+   The reference search (Spec/SpecCut.v) asks G for its first answer only; not(G) continues -
+   once, with the substitution it was entered with - iff there was none
+   (C03_reference_not_cps).  PROVED: the engine yields exactly the answers of that reference
+   search for every program (C03_refines = Proofs/RefineCut.refines_cut); and, directly on
+   the machine, the behaviour of the not node in terms of the first request to G's node. *)
+From Suiron Require Import Model.Term Model.Subst Model.Rename Model.Solve Spec.SpecSolve Spec.SpecCut Spec.Refine
+  Proofs.SolveDead Proofs.SolveMisc Proofs.RefineCut.
 
-Definition C03_full : Prop := refines_reference.
+Theorem C03_refines : forall kb bf q w fs R nd w1 m F R',
+  canswers kb bf fs q w = Ok R ->
+  make_base_node kb (GCall q) w = Ok (nd, w1) ->
+  ask_all kb bf m F nd w1 = Ok R' -> R' = R.
+Proof. exact refines_cut. Qed.
+
+(* the reference search of not(G): G is asked with a continuation that halts at the first
+   answer; no answer - continue with s itself (no binding of G); an answer - fail *)
+Theorem C03_reference_not_cps : forall kb bf f g rest s w k,
+  has_cut g = false ->
+  csolve kb bf (S f) (GOp ONot (g :: rest)) s w k =
+  do x <- csolve kb bf f g s w halt1;
+  let '(a, w1, _) := x in
+  match a with [] => k s w1 false | _ => Ok ([], w1, Go) end.
+Proof. intros kb bf f g rest s w k Hc. rewrite csolve_S. unfold csolve_body. now rewrite Hc. Qed.
 
 (* A fresh not(G) node asks G once.  It answers with exactly the substitution it was created
    with - no binding of G is visible - iff G has no answer, fails otherwise, and is spent:
@@ -48,5 +63,7 @@ Check C03_not_node : forall kb bf f ss h tl ot w nd' r c w',
     r = match sol with Some _ => None | None => Some ss end /\
     dead nd'.
 
+Print Assumptions C03_refines.
+Print Assumptions C03_reference_not_cps.
 Print Assumptions C03_not_node.
 Print Assumptions C03_reference_not.
